@@ -420,7 +420,6 @@ def oracle(case, out, stats):
     prev = None          # dict(op, ins, outs, k) of the previous op
     smart_last = None
     toR_seen = {}
-    stream = case.get('meta', {}).get('stream', '')
 
     def count(key, n=1):
         stats[key] = stats.get(key, 0) + n
@@ -570,8 +569,13 @@ def oracle(case, out, stats):
             tol = max(atol, 16 * EPS[k] * cond)
             raws = [math.atan2(R[7], R[8]), -math.asin(max(-1.0, min(1.0, R[6]))), math.atan2(R[3], R[0])]
             for a, raw in zip(outs, raws):
-                # the closed end is allowed whenever the exact angle is within the conditioning-scaled tolerance of 0-
-                if not (_angle_in_0_2pi(a, k, raw) or (a == rnd(M_2PI, k) and ang_diff(raw, 0.0) <= tol)):
+                # closed upper end: only when the exact angle is within one ulp below 0.  For eul.fromQ the matrix the C++ decodes is
+                # not observable (the oracle recomputes it, with its own rounding), so there "exact angle" is known only up to the
+                # rounding of the matrix entries, 16*eps/cos(pitch)
+                ok = _angle_in_0_2pi(a, k, raw)
+                if not ok and op == 'eul.fromQ' and a == rnd(M_2PI, k):
+                    ok = ang_diff(raw, 0.0) <= 16 * EPS[k] * cond
+                if not ok:
                     bad('euler-range', 'angle %r outside [0, 2*pi)' % a, scalar=sc)
             in_domain = abs(R[6]) <= 1 - 1e-6 + 4 * EPS[k]
             if in_domain and ortho_defect3(R) < 100 * EPS[k]:
